@@ -22,6 +22,9 @@ EXPLANATION = (
     "instance-state cache are fresh per instance, never class-level; (engine) wherever wrappers can be added to the registry, "
     "the sync/async decision is re-established before an engine is (or stays) chosen. Argument-injection parity is C07's."
 )
+EXPLANATION += (
+    " " + "A provider's attribute set is dir() of the attached object itself, computed at attach time (not per class, not cached)."
+)
 ASSUMPTIONS = ["id(obj) is unique among live objects (language guarantee)"]
 TRUSTED = ["/verif/sa path enumerator, resolver and call graph"]
 
